@@ -2,6 +2,7 @@
 package c11
 
 import (
+	"reflect"
 	"bufio"
 	"encoding/json"
 	"fmt"
@@ -115,6 +116,10 @@ type resource struct {
 
 type world struct {
 	h http.Handler
+	// perturb changes the backend's data in place (tags, dates, lengths, display names); fresh makes a new handler
+	// over the same backend: relation (6), a handler that has answered before answers like one that has not
+	perturb func()
+	fresh   func() http.Handler
 	// all resources by level
 	scope func(target, depth string) (res []resource, countOnly bool, known bool)
 }
@@ -164,8 +169,26 @@ func build(c Case) *world {
 		}
 		if c.Server == "caldav" {
 			w.h = &caldav.Handler{Backend: calB, Prefix: "/dav"}
+			w.fresh = func() http.Handler { return &caldav.Handler{Backend: calB, Prefix: "/dav"} }
 		} else {
 			w.h = &carddav.Handler{Backend: cardB, Prefix: "/dav/"}
+			w.fresh = func() http.Handler { return &carddav.Handler{Backend: cardB, Prefix: "/dav/"} }
+		}
+		w.perturb = func() {
+			for i := range calB.Calendars {
+				calB.Calendars[i].Name += "*"
+				calB.Calendars[i].Description = "changed " + calB.Calendars[i].Description
+				cardB.Books[i].Name += "*"
+				cardB.Books[i].Description = "changed " + cardB.Books[i].Description
+			}
+			for p := range calB.Objects {
+				for i := range calB.Objects[p] {
+					o := &calB.Objects[p][i]
+					o.ETag, o.ModTime, o.ContentLength = "p"+o.ETag, mt(1600000000+int64(i)), o.ContentLength+7
+					a := &cardB.Objects[p][i]
+					a.ETag, a.ModTime, a.ContentLength = "p"+a.ETag, mt(1600000000+int64(i)), a.ContentLength+7
+				}
+			}
 		}
 		rt := []vx.Name{dn("resourcetype")}
 		w.scope = func(target, depth string) ([]resource, bool, bool) {
@@ -241,6 +264,14 @@ func build(c Case) *world {
 		}
 		add("/", c.Tree)
 		w.h = &webdav.Handler{FileSystem: fs}
+		w.fresh = func() http.Handler { return &webdav.Handler{FileSystem: fs} }
+		w.perturb = func() {
+			for _, f := range fs.Files {
+				if !f.Info.IsDir {
+					f.Info.Size, f.Info.ETag, f.Info.ModTime, f.Info.MIMEType = f.Info.Size+7, "p"+f.Info.ETag, mt(1600000000), "application/x-changed"
+				}
+			}
+		}
 		w.scope = func(target, depth string) ([]resource, bool, bool) {
 			f := fs.Files[target]
 			if f == nil {
@@ -582,6 +613,29 @@ func evaluate(c Case) (vev.Outcome, error) {
 					}
 					return dev(cls+"|"+kind, "answer for %q contains %s which was not requested (%v)", path, n, c.Names), nil
 				}
+			}
+		}
+	}
+	// (6) statelessness: after the backend's data has changed under the same paths, the handler that answered above
+	// answers the same request exactly like a handler made just now over the same backend (nothing remembered from
+	// earlier answers: per-handler caches keyed by path, by request body, ...)
+	if w.perturb != nil {
+		w.perturb()
+		usedResp := serve(w, c.Target, c.Depth, b, ct)
+		w2 := *w
+		w2.h = w.fresh()
+		freshResp := serve(&w2, c.Target, c.Depth, b, ct)
+		if usedResp.Panic != nil || freshResp.Panic != nil {
+			return dev(cls+"|panic", "panic after the backend changed: %v / %v", usedResp.Panic, freshResp.Panic), nil
+		}
+		if usedResp.Status != freshResp.Status {
+			return dev(cls+"|stateful-handler|status", "after the backend's data changed the used handler answers %d, a fresh one %d", usedResp.Status, freshResp.Status), nil
+		}
+		if usedResp.Status == 207 {
+			g1, o1, e1 := read(usedResp, cls)
+			g2, o2, e2 := read(freshResp, cls)
+			if e1.OK() && e2.OK() && (!reflect.DeepEqual(o1, o2) || !reflect.DeepEqual(g1, g2)) {
+				return dev(cls+"|stateful-handler|content", "after the backend's data changed the used handler answers\n%.600s\na fresh handler over the same backend\n%.600s", usedResp.Body, freshResp.Body), nil
 			}
 		}
 	}
